@@ -312,6 +312,31 @@ def rule_c(ctx: Ctx) -> None:
                  "transforms.preprocess no longer converts UnsupportedError raised by a transform into Generator.unsupported()")
     else:
         ctx.ok(f"{pre.key}|converts UnsupportedError")
+    # ... and every application of a transform of the chain runs inside that try body (not before it, in its else/finally or after it)
+    def applies_transform(c: ast.AST) -> bool:
+        if not (isinstance(c, ast.Call) and len(c.args) == 1 and norm(c.args[0]) == "expression"):
+            return False
+        fn = c.func
+        return (isinstance(fn, ast.Name) and fn.id in ("transform", "t", "fn", "func")) or (isinstance(fn, ast.Subscript) and norm(fn.value) == "transforms")
+
+    apps = [c for c in walk_no_nested(pre.node) if applies_transform(c)]
+    ctx.require(bool(apps), "anchor vanished: preprocess._to_sql no longer applies its transforms as transform(expression)")
+    for c in apps:
+        covered = False
+        cur: ast.AST = c
+        p_ = pre.module.parent(cur)
+        while p_ is not None and p_ is not pre.node:
+            if isinstance(p_, ast.Try) and any(cur is st_ for st_ in p_.body) and any(
+                h.type is not None and "UnsupportedError" in norm(h.type) and any(call_name(x) == "self.unsupported" for x in ast.walk(h)) for h in p_.handlers
+            ):
+                covered = True
+            cur, p_ = p_, pre.module.parent(p_)
+        inst = f"{pre.key}|{norm(c)}|L{c.lineno - pre.node.lineno}"
+        if covered:
+            ctx.ok(inst, {"application": norm(c), "inside": "try body with except UnsupportedError -> self.unsupported"})
+        else:
+            ctx.fail(pre.module, c, pre.key, c, "this transform of the preprocess chain runs outside the try whose handler converts UnsupportedError into Generator.unsupported(): "
+                                                "an UnsupportedError it raises escapes at every unsupported_level instead of being recorded / logged / raised by policy")
     n = 0
     for m in repo.modules.values():
         for node in m.of_type(ast.Raise):
